@@ -63,7 +63,7 @@ def scopes(tier):
                     features=("late",))),
         ("future", sc("WorldsFlat", "import,from,future", 2, 1, 4, features=("future",))),
         ("rebind", sc("WorldsFlat", "importas,from,fromas,star", 2, 1, 3, qforms="from,star", features=("rebind",))),
-        ("twopaths", sc("WorldsFlat", "import,importas,from,fromas", 2, 2, 4, qforms="importas,from",
+        ("twopaths", sc("WorldsFlat", "import,importas,from,fromas", 2, 2, 4, qforms="import,importas,from",
                         features=("twopaths",))),
         ("starplus", sc("WorldsFlat", "import,from,star", 2, 2, 4, features=("starplus",))),
         ("starall", sc("WorldsFlat", "from,star", 2, 1, 3, features=("starall",))),
@@ -79,8 +79,9 @@ def scopes(tier):
 
 
 def quick_limit(name):
-    """the quick tier replays every program of at most two statements and, per scope, this many
-    larger ones (seeded)"""
+    """the quick tier replays, in a plain scope, every program of at most two statements and this many
+    larger ones (seeded); in a feature scope the programs that have the feature (smallest first, see
+    _pymodules.TAGGED_CAP) and this many others"""
     return 90 if name.isupper() else 25
 
 
